@@ -18,7 +18,7 @@ EXPLANATION = (
     "factor; (R09.6) element-matrix slicing and COO index construction use one node count and the same first-active indices.")
 EXPLANATION_MORE = ("  Added after the seeded waves: (R09.7 = R17.6) inner_products / integrate weight by |det J|; (R09.8) quadrature "
                     "producers return freshly allocated rules, because consumers scale the weights they obtained in place.")
-DOES_NOT_DECIDE ="SPD/kernel/sum identities of assembled matrices, numerical exactness, the low-rank assembler and fastasm.cc (no C++ front end)"
+DOES_NOT_DECIDE ="SPD/kernel/sum identities of assembled matrices, numerical exactness, the low-rank assembler and fastasm.cc (no C++ front end; R09.10 only compares two sibling index expressions token by token)"
 TECHNIQUE = "symbolic evaluation of straight-line kernels into polynomial/rational normal forms; term algebra of Kronecker sums; affine algebra; provenance of local names"
 
 A = 'pyiga.assemble'
@@ -498,7 +498,55 @@ def r09_6(ctx):
     ctx.decide('R09.6', m.qual, 'element matrices raveled in C order against (I, J)', ok or None, m.node, 'duplicates are summed by the COO->CSR conversion')
 
 
+def r09_10(ctx):
+    """fastasm.cc (no C++ front end: a token-level sibling comparison, nothing more): inflate_2d / inflate_3d ravel the row
+    multi-index x and the column multi-index y of every entry by the SAME expression -- both index a square block structure with
+    the same block sizes.  The two push_back arguments must be equal token by token up to the one substitution x <-> y."""
+    import os
+    import re as _re
+    path = os.path.join(ctx.prog.repo, 'pyiga', 'fastasm.cc')
+    if not os.path.exists(path):
+        ctx.undecided('R09.10', 'pyiga/fastasm.cc', 'inflate_2d / inflate_3d', None, 'file not found', where='pyiga/fastasm.cc')
+        return
+    text = open(path).read()
+    ctx.prog.files_read.append(os.path.join('pyiga', 'fastasm.cc'))
+    n = 0
+    for fn in ('inflate_2d', 'inflate_3d'):
+        m = _re.search(r'void\s+' + fn + r'\s*\(', text)
+        if not m:
+            ctx.undecided('R09.10', 'pyiga/fastasm.cc::' + fn, 'definition', None, 'not found', where='pyiga/fastasm.cc')
+            continue
+        body = text[m.start():]
+        nxt = _re.search(r'\nvoid\s+\w+\s*\(|\n}\s*//\s*end', body[10:])
+        body = body[:nxt.start() + 10] if nxt else body
+        pi = _re.search(r'entries_i\s*\.push_back\((.*)\);', body)
+        pj = _re.search(r'entries_j\s*\.push_back\((.*)\);', body)
+        if not (pi and pj):
+            ctx.undecided('R09.10', 'pyiga/fastasm.cc::' + fn, 'entries_i / entries_j', None, 'push_back statements not found', where='pyiga/fastasm.cc')
+            continue
+        n += 1
+        ti = _re.findall(r'[A-Za-z_]\w*|\d+|\S', pi.group(1))
+        tj = _re.findall(r'[A-Za-z_]\w*|\d+|\S', pj.group(1))
+        line = text[:m.start() + pj.start()].count('\n') + 1
+        st = 'entries_i: %s | entries_j: %s' % (pi.group(1).strip(), pj.group(1).strip())
+        if len(ti) != len(tj):
+            ctx.undecided('R09.10', 'pyiga/fastasm.cc::' + fn, st, None, 'the two expressions have different shapes', where='pyiga/fastasm.cc:%d' % line)
+            continue
+        diff = {(a, b) for a, b in zip(ti, tj) if a != b}
+        ok = len(diff) <= 1 and all(_re.match(r'[A-Za-z_]', a) and _re.match(r'[A-Za-z_]', b) for a, b in diff)
+        if ok:
+            ctx.met('R09.10', 'pyiga/fastasm.cc::' + fn, st, None, 'row and column index ravelled alike', where='pyiga/fastasm.cc:%d' % line)
+        else:
+            ctx.violated('R09.10', 'pyiga/fastasm.cc::' + fn, st, None,
+                         'row and column multi-index of an inflated entry are ravelled with different strides (%s): for a tensor-product space '
+                         'with different numbers of dofs per direction the columns of mass_fast / stiffness_fast are scrambled (7x11: errors as '
+                         'large as the entries; 11x7: index out of range)' % ', '.join('%s vs %s' % d for d in sorted(diff)),
+                         where='pyiga/fastasm.cc:%d' % line)
+    ctx.floor('R09.10', 'inflate routines compared', n, 2)
+
+
 def run(ctx):
+    r09_10(ctx)
     r09_1(ctx)
     r09_2(ctx)
     r09_3(ctx)
